@@ -401,9 +401,47 @@ def register_edits(B, ctx, edits, asm_hook=None):
                                preserve_caller_saved_registers=bool(c.get("preserve")))
         return make_patch(e["asm"], cons, get_asm=asm_hook(e["asm"]) if asm_hook else None)
 
-    done_groups = set()
-    for e in edits:
+    done_groups, done_fns = set(), set()
+    refused = sorted((r for r in (B.case.get("refused") or [])), key=lambda r: r.get("when", 0)) if getattr(B, "case", None) else []
+    B.refusals = []
+
+    def attempt_refused(upto):
+        # registrations the interface must refuse (and forget): tried between the valid ones
+        while refused and refused[0].get("when", 0) <= upto:
+            r = refused.pop(0)
+            blk_ = B.blocks[r["block"]]
+            try:
+                if r["op"] == "insert":
+                    ctx.insert_at(blk_, r["off"], mk(r))
+                elif r["op"] == "replace":
+                    ctx.replace_at(blk_, r["off"], r["len"], mk(r))
+                else:
+                    ctx.delete_at(blk_, r["off"], r["len"], retarget_to_proxy=bool(r.get("proxy", False)))
+                B.refusals.append((r, None))
+            except Exception as ex:  # noqa: BLE001
+                B.refusals.append((r, type(ex).__name__))
+
+    # a delete_function group stands for the one call only while it is still whole (case surgery by a runner may
+    # have taken members out or aimed other requests at the function's blocks): otherwise its members are
+    # registered one by one
+    flat = flat_of(B.case) if getattr(B, "case", None) else []
+    whole_fn = set()
+    for f in {e["fn"] for e in edits if e.get("fn") is not None}:
+        members = {i for i, d in enumerate(flat) if d["kind"] == "code" and d.get("func") == f}
+        got = [e["block"] for e in edits if e.get("fn") == f]
+        others = [e for e in edits if e.get("fn") != f and e["block"] in members and e.get("all") is None]
+        if sorted(got) == sorted(members) and not others:
+            whole_fn.add(f)
+    for k_, e in enumerate(edits):
+        attempt_refused(k_)
         blk = B.blocks[e["block"]]
+        if e.get("fn") is not None and e["fn"] in whole_fn:
+            # the members of a delete_function call stand for that one call
+            if e["fn"] not in done_fns:
+                done_fns.add(e["fn"])
+                fobj = next(f for f in ctx._functions if blk in f.get_all_blocks())
+                ctx.delete_function(fobj)
+            continue
         if e.get("all") is not None:
             # the members of a scope-wide registration stand for one register_insert call
             if e["all"] not in done_groups:
@@ -420,6 +458,12 @@ def register_edits(B, ctx, edits, asm_hook=None):
             ctx.delete_at(blk, e["off"], e["len"], retarget_to_proxy=bool(e.get("proxy", False)))
         else:
             raise ValueError(e["op"])
+    attempt_refused(len(edits))
+    # retarget_symbol_uses(old, new), by name
+    for old_name, new_name in (B.case.get("retargets") or []) if getattr(B, "case", None) else []:
+        so = next(y for y in B.m.symbols if y.name == old_name)
+        sn = next(y for y in B.m.symbols if y.name == new_name)
+        ctx.retarget_symbol_uses(so, sn)
 
 
 def run_case(case, record=True, on_op=None):
@@ -597,6 +641,34 @@ def gen_case(rng, nblocks=None, with_data=True, with_funcs=True, nedits=None, cf
         case.pop("init", None)
         case.pop("fini", None)
         case["safeseh"] = sorted(set(rng.choice(code_idx) for _ in range(rng.randint(1, 2))))
+    if nedits is None and rng.random() < 0.1:
+        # registrations the interface refuses - a partial range with retarget_to_proxy, an offset behind the block, an
+        # offset inside an instruction - tried among the valid ones: a refused request must leave nothing behind
+        refused = []
+        for _ in range(rng.choice([1, 1, 2])):
+            i = rng.randrange(len(text))
+            d = text[i]
+            offs = block_layout(d) if d["kind"] == "code" else list(range(len(d["bytes"]) + 1))
+            kind = rng.choice(["partial-proxy", "partial-proxy", "beyond", "inside"])
+            when = rng.randint(0, len(case["edits"]))
+            if kind == "partial-proxy" and len(offs) > 2:
+                a = rng.randrange(len(offs) - 1)
+                b = rng.randrange(a + 1, len(offs))
+                if a == 0 and b == len(offs) - 1:
+                    b -= 1
+                refused.append({"op": "delete", "block": i, "off": offs[a], "len": offs[b] - offs[a], "proxy": True, "when": when})
+            elif kind == "beyond":
+                if rng.random() < 0.5:
+                    refused.append({"op": "insert", "block": i, "off": offs[-1] + 1, "asm": "nop" if d["kind"] == "code" else ".byte 1", "when": when})
+                else:
+                    refused.append({"op": "delete", "block": i, "off": offs[-1] + rng.choice([0, 1]), "len": rng.choice([1, 2]), "when": when})
+            elif kind == "inside" and d["kind"] == "code":
+                wide = [k for k in range(len(offs) - 1) if offs[k + 1] - offs[k] > 1]
+                if wide:
+                    k = rng.choice(wide)
+                    refused.append({"op": "insert", "block": i, "off": offs[k] + 1, "asm": "nop", "when": when})
+        if refused:
+            case["refused"] = refused
     if cfg_domain:
         # C03: keep the module inside "CFG consistent with the code": drop requests that would
         # leave code running off into data / the end of the section
@@ -606,6 +678,44 @@ def gen_case(rng, nblocks=None, with_data=True, with_funcs=True, nedits=None, cf
             groups = {e.get("all") for e in case["edits"] if e.get("all") is not None}
             victim = case["edits"][-1]
             case["edits"] = [e for e in case["edits"] if e is not victim and not (victim.get("all") is not None and e.get("all") == victim.get("all"))]
+    return case
+
+
+def add_retargets(rng, case, n=None, chains=False):
+    """retarget_symbol_uses(old, new) requests on the labels of code blocks; without `chains` an old symbol is not the
+    new symbol of another request; cycles never"""
+    text = flat_of(case)
+    labels = [s["name"] for d in text if d["kind"] == "code" for s in d["syms"] if not s.get("at_end")]
+    news = labels + list(case.get("externs", []))
+    out, used = [], set()
+    for _ in range(n or rng.choice([1, 1, 2])):
+        olds = [x for x in labels if x not in used]
+        if not olds:
+            break
+        a = rng.choice(olds)
+        cands = [x for x in news if x != a and x not in used]
+        if chains:
+            fwd = dict(out)
+
+            def reaches(x, goal):
+                seen = set()
+                while x in fwd and x not in seen:
+                    seen.add(x)
+                    x = fwd[x]
+                    if x == goal:
+                        return True
+                return False
+
+            cands = [x for x in news if x != a and not reaches(x, a)]
+        if not cands:
+            break
+        b = rng.choice(cands)
+        used.add(a)
+        if not chains:
+            used.add(b)
+        out.append([a, b])
+    if out:
+        case["retargets"] = out
     return case
 
 
@@ -703,6 +813,18 @@ def gen_edits(rng, case, nedits=None):
         edits = [e for e in edits if not (e["block"] in at and e.get("len", 0) and e["off"] < at[e["block"]] < e["off"] + e["len"])]
         k = rng.randint(0, len(edits))
         edits[k:k] = group
+    # one call of delete_function(F): in the listing the deletion of every block of F with retarget_to_proxy
+    fns = sorted({d["func"] for d in text if d["kind"] == "code" and d.get("func") is not None})
+    if fns and auto and rng.random() < 0.07:
+        f = rng.choice(fns)
+        members = [i for i, d in enumerate(text) if d["kind"] == "code" and d.get("func") == f]
+        # (a member of a scope-wide registration strictly inside one of the blocks would overlap the deletion)
+        inside = any(e.get("all") is not None and e["block"] in members and 0 < e["off"] < block_layout(text[e["block"]])[-1] for e in edits)
+        if all(text[i]["insns"] for i in members) and not inside:
+            edits = [e for e in edits if e["block"] not in members or e.get("all") is not None]
+            group = [{"op": "delete", "block": i, "off": 0, "len": block_layout(text[i])[-1], "proxy": True, "fn": f} for i in members]
+            k = rng.randint(0, len(edits))
+            edits[k:k] = group
     return edits
 
 
@@ -858,7 +980,7 @@ def run_listing(case, pre=None):
         _prep.join_byte_intervals = real_join
     B.dump1 = irdump.dump_ir(B.m, rec.idm)
     out = {"B": B, "rec": rec, "err": err, "pre": pre_result, "err_where": err_where, "err_line": err_line, "before": B.dump0, "after": B.dump1,
-           "alignable": alignable}
+           "alignable": alignable, "refusals": getattr(B, "refusals", [])}
     out["edits"] = listing_edits(B, rec, case) if err is None else None
     if case.get("lead"):
         out["before"] = strip_lead(out["before"], case["lead"])
